@@ -31,16 +31,32 @@ def u_store(strategy):
     m = ctx.fresh(Atom, 'metric')
     ts = ctx.fresh(R, 'ts')
     v = ctx.fresh(Val, 'value')
-    # lock-invariant conjuncts assumed on entry (they are proved again at release)
-    hs.assume_I()
+    # store() runs on the reactor thread: between its atomic steps outside the lock the writer
+    # thread may pop metrics (rely G_W*).  The contract relates the state at lock release to the
+    # state at lock acquisition (the linearisation point).
+    from .cache_model import enable_rely_W
+    enable_rely_W(hs)
     inf = hs.max_inf
-    size0 = hs.size
-    ctx.assume(z3.Implies(z3.Not(inf), z3.ToReal(size0) <= hs.hard))          # C10 bound (pre)
-    flag0 = hs.state.attrs['cacheTooFull']
-    ctx.assume(z3.Implies(z3.And(flag0, z3.Not(inf)), z3.ToReal(size0) >= hs.low))   # C09 (pre)
-    old = d.snapshot()
-    nm0 = hs.new_metrics.term
-    hs.install_lock_hooks('C02/store')
+    snap = {}
+
+    def on_acq(ip):
+      # lock-invariant conjuncts assumed at acquisition (they are proved again at release)
+      snap['old'] = d.snapshot()
+      snap['size0'] = hs.cache.fields['size']
+      snap['nm0'] = hs.new_metrics.term
+      snap['flag0'] = hs.state.attrs['cacheTooFull']
+      ctx.assume(z3.Implies(z3.Not(inf), z3.ToReal(snap['size0']) <= hs.hard))          # C10 bound (pre)
+      f0 = snap['flag0'] if z3.is_expr(snap['flag0']) else z3.BoolVal(bool(snap['flag0']))
+      ctx.assume(z3.Implies(z3.And(f0, z3.Not(inf)), z3.ToReal(snap['size0']) >= hs.low))   # C09 (pre)
+      hs.log.clear()
+
+    def on_rel(ip):
+      snap['rel'] = d.snapshot()
+      snap['size1'] = hs.cache.fields['size']
+      snap['nm1'] = hs.new_metrics.term
+      snap['flag1'] = hs.state.attrs['cacheTooFull']
+      snap['events'] = list(hs.log.events)
+    hs.install_lock_hooks(['C02/store', 'C10/store'], on_acquire=on_acq, on_release=on_rel)
     raised = None
     try:
       hs.ip.run(CACHE + '.store', [m, (ts, v)], self_obj=hs.cache)
@@ -50,15 +66,29 @@ def u_store(strategy):
     ctx.check('C17/store/no_raise[%s]' % strategy, z3.BoolVal(raised is None))
     if raised is not None:
       return
+    ok_lock = 'rel' in snap
+    for pre in ('C02', 'C10'):
+      ctx.check(pre + '/store/updates_happen_in_one_lock_region', z3.BoolVal(ok_lock))
+    if not ok_lock:
+      return
+    old, size0, nm0, flag0 = snap['old'], snap['size0'], snap['nm0'], snap['flag0']
+
+    class _View(object):
+      pass
+    dd = _View()
+    dd.keys, dd.inner, dd.card, dd.total = snap['rel'].keys, snap['rel'].inner, snap['rel'].card, snap['rel'].total
+    d = dd
+    hs_size1, hs_nm1, hs_flag1 = snap['size1'], snap['nm1'], snap['flag1']
+    events_in_lock = snap['events']
     im0 = z3.Select(old.inner, m)
     in0 = z3.Select(old.keys, m)
     present = z3.And(in0, z3.Select(IM.ikeys(im0), ts))
-    size1 = hs.cache.fields['size']
+    size1 = hs_size1
     # "refused" / "accepted" are defined by the observable outcome, not by the code's own test
     stored1 = z3.And(z3.Select(d.keys, m), z3.Select(IM.ikeys(z3.Select(d.inner, m)), ts))
     no_room = z3.And(z3.Not(inf), z3.ToReal(size0) + 1 > hs.hard)
-    overflow = len(hs.log.of('events.cacheOverflow'))
-    cfull = len(hs.log.of('events.cacheFull'))
+    overflow = len([e for e in events_in_lock if e[0] == 'events.cacheOverflow'])
+    cfull = len([e for e in events_in_lock if e[0] == 'events.cacheFull'])
     refused = z3.And(z3.Not(present), z3.Not(stored1))
     accepted = z3.And(z3.Not(present), stored1)
     base_im = z3.If(in0, im0, EMPTY_IM)
@@ -71,13 +101,13 @@ def u_store(strategy):
     ctx.check('C10/store/refuse_frame',
               z3.Implies(refused, z3.And(d.keys == old.keys, d.card == old.card, size1 == size0,
                                          z3.Select(d.inner, m) == z3.Select(old.inner, m),
-                                         hs.new_metrics.term == nm0)))
+                                         hs_nm1 == nm0)))
     ctx.check('C10/store/refuse_frame_others', z3.Implies(refused, frame_others(d, old, m)))
     upd_im = IM.mkIM(IM.ikeys(im0), z3.Store(IM.ivals(im0), ts, v), IM.icard(im0))
     ctx.check('C10/store/update_when_full',
               z3.Implies(present, z3.And(size1 == size0, d.keys == old.keys,
                                          d.inner == z3.Store(old.inner, m, upd_im),
-                                         hs.new_metrics.term == nm0)))
+                                         hs_nm1 == nm0)))
     # ---- C02 ----
     acc_im = IM.mkIM(z3.Store(IM.ikeys(base_im), ts, z3.BoolVal(True)),
                      z3.Store(IM.ivals(base_im), ts, v), IM.icard(base_im) + 1)
@@ -95,10 +125,10 @@ def u_store(strategy):
     was_new = z3.Or(z3.Not(in0), IM.icard(im0) == 0)
     ctx.check('C02/store/new_metrics',
               z3.And(z3.Implies(z3.And(accepted, was_new),
-                                hs.new_metrics.term == z3.Concat(nm0, z3.Unit(m))),
-                     z3.Implies(z3.Not(z3.And(accepted, was_new)), hs.new_metrics.term == nm0)))
+                                hs_nm1 == z3.Concat(nm0, z3.Unit(m))),
+                     z3.Implies(z3.Not(z3.And(accepted, was_new)), hs_nm1 == nm0)))
     # ---- C09 (cache side): the too-full flag is only ever raised with size >= MAX >= LOW ----
-    flag1 = hs.state.attrs['cacheTooFull']
+    flag1 = hs_flag1
     ctx.check('C09/store/flag_implies_above_low',
               z3.Implies(z3.And(hs.ip.truth(flag1) if not isinstance(flag1, bool) else z3.BoolVal(flag1), z3.Not(inf)),
                          z3.ToReal(size1) >= hs.low))
@@ -106,7 +136,7 @@ def u_store(strategy):
               z3.Implies(z3.BoolVal(cfull > 0), z3.And(z3.Not(inf), z3.ToReal(size0) >= hs.max, accepted)))
     ctx.check('C09/store/full_signal_at_max',
               z3.Implies(z3.And(accepted, z3.Not(inf), z3.ToReal(size0) >= hs.max), z3.BoolVal(cfull == 1)))
-    ctx.check('C09/store/never_signals_space', z3.BoolVal(len(hs.log.of('events.cacheSpaceAvailable')) == 0))
+    ctx.check('C09/store/never_signals_space', z3.BoolVal(len([e for e in hs.log.events if e[0] == 'events.cacheSpaceAvailable']) == 0))
   return run
 
 
@@ -202,7 +232,7 @@ def u_pop(ctx, index):
   def on_rel(ip):
     snap['rel'] = d.snapshot()
     snap['size_rel'] = hs.cache.fields['size']
-  hs.install_lock_hooks('C02/pop', on_acquire=on_acq, on_release=on_rel)
+  hs.install_lock_hooks(['C02/pop', 'C10/pop'], on_acquire=on_acq, on_release=on_rel)
   raised = None
   try:
     r = hs.ip.run(CACHE + '.pop', [m], self_obj=hs.cache)
